@@ -51,6 +51,9 @@ pub enum Misuse {
     InputForHandle(usize),
     /// advance_frame with the input of one local player missing
     AdvanceMissingInput,
+    /// add the inputs of all local players but the last, call advance_frame (must be rejected),
+    /// then let the tick supply only the missing input and advance
+    AdvancePartialInputs,
     DisconnectHandle(usize),
     SetDelayHandle(usize, usize),
     StatsHandle(usize),
